@@ -1,2 +1,6 @@
 #!/bin/sh
-exit 0
+# MANIFEST.setup_cmd: build every harness binary offline from files on disk (rebuilds /repo with hooks on).
+set -e
+cd "$(dirname "$0")"
+export CARGO_NET_OFFLINE=true
+exec ./check build-all
